@@ -137,3 +137,33 @@ pub fn c14_t_change_real_layout() {
     assert!(o2 == Some(Azerty.map_keycode(k, &m, h)), "C14: change_layout did not take effect on the next key");
     kani::cover!(o1 != o2);
 }
+
+/// Thorough: the same after a symbolic four-event history (all 124^4 x 3^4 histories in one query).
+#[kani::proof]
+#[kani::unwind(300)]
+pub fn c14_t_after_four_events() {
+    let calls = Cell::new(0);
+    let m0 = any_mods();
+    let h0 = any_mode();
+    let mut d = evdec(Spy { tag: false, calls: &calls }, &m0, h0);
+    let mut m = m0.clone();
+    let mut i = 0;
+    while i < 4 {
+        let (k, s) = (any_key(), any_state());
+        let _ = d.process_keyevent(KeyEvent::new(k, s));
+        m = spec_next(&m, k, s);
+        i += 1;
+    }
+    let mode = any_mode();
+    d.set_ctrl_handling(mode);
+    let tag: bool = kani::any();
+    d.change_layout(Spy { tag, calls: &calls });
+    let k = any_key();
+    kani::assume(!is_modifier_key(k));
+    let n0 = calls.get();
+    let out = d.process_keyevent(KeyEvent::new(k, KeyState::Down));
+    crate::show!("C14 four-event history mods0={:?} then key={:?} mode={:?} tag={} out={:?} expected mods={:?}", m0, k, mode, tag, out, m);
+    assert!(out == Some(enc(tag, k, &m, mode)), "C14: press after a four-event history not decoded by the current layout with the current modifiers and mode");
+    assert!(calls.get() == n0.wrapping_add(1), "C14: layout not consulted exactly once after a four-event history");
+    kani::cover!(m != m0);
+}
